@@ -33,9 +33,13 @@ EXTENDS Naturals, FiniteSets, TLC
 
 CONSTANTS Threads,      \* set of thread ids (1..N)
           Rounds,       \* lock/unlock rounds per thread (>= 1)
+          MoreRounds,   \* threads that do one round more (a thread that comes back on the fast path
+                        \* while the others are still queued, without doubling everybody's rounds)
           PassiveSpin,  \* PASSIVE_SPIN of the code
           Spurious,     \* BOOLEAN: futex_wait may return without a wake-up
           WakeOn        \* 2 = the code; 1 = the lost-wake-up mutant
+
+MyRounds(th) == Rounds + (IF th \in MoreRounds THEN 1 ELSE 0)
 
 (* --algorithm ShmMutex {
   variables key = 0,
@@ -62,12 +66,12 @@ CONSTANTS Threads,      \* set of thread ids (1..N)
   unl:    if (key = WakeOn) { key := 0; goto wk; }
           else { if (key = 0) { bug := TRUE; };
                  key := 0; rounds := rounds + 1;
-                 if (rounds < Rounds) { goto cas1; } else { goto Done; } };
+                 if (rounds < MyRounds(self)) { goto cas1; } else { goto Done; } };
   wk:     if (sleepers # {}) {
              with (s \in sleepers) { wakeTok := wakeTok \cup {s}; sleepers := sleepers \ {s}; };
           };
           rounds := rounds + 1;
-          if (rounds < Rounds) { goto cas1; } else { goto Done; };
+          if (rounds < MyRounds(self)) { goto cas1; } else { goto Done; };
   }
 } *)
 \* BEGIN TRANSLATION
@@ -167,7 +171,7 @@ unl(self) == /\ pc[self] = "unl"
                                    /\ bug' = bug
                         /\ key' = 0
                         /\ rounds' = [rounds EXCEPT ![self] = rounds[self] + 1]
-                        /\ IF rounds'[self] < Rounds
+                        /\ IF rounds'[self] < MyRounds(self)
                               THEN /\ pc' = [pc EXCEPT ![self] = "cas1"]
                               ELSE /\ pc' = [pc EXCEPT ![self] = "Done"]
              /\ UNCHANGED << sleepers, wakeTok, holder, wait, spins >>
@@ -180,7 +184,7 @@ wk(self) == /\ pc[self] = "wk"
                   ELSE /\ TRUE
                        /\ UNCHANGED << sleepers, wakeTok >>
             /\ rounds' = [rounds EXCEPT ![self] = rounds[self] + 1]
-            /\ IF rounds'[self] < Rounds
+            /\ IF rounds'[self] < MyRounds(self)
                   THEN /\ pc' = [pc EXCEPT ![self] = "cas1"]
                   ELSE /\ pc' = [pc EXCEPT ![self] = "Done"]
             /\ UNCHANGED << key, holder, bug, wait, spins >>
